@@ -31,11 +31,19 @@
 (* The handler environment:                                                *)
 (*   one directory per handler (= extension version) h, holding            *)
 (*     curSeq[h]   current_seq_no.txt: a sequence number or Absent         *)
-(*     stf[h][s]   <statusFolder>/<s>.status: the `status` field, or none  *)
+(*     stf[h][s]   <statusFolder>/<s>.status exists                        *)
 (*     stray[h]    the file `<statusFolder>.status` NEXT TO the status     *)
-(*                 folder: what get_file_path yields for the empty         *)
+(*                 folder exists: what get_file_path yields for the empty  *)
 (*                 sequence number (PathBuf::push("") + set_extension)     *)
-(*     hb[h]       the heartbeat file has been written                     *)
+(*     wr          the status write of the step just taken, if any:        *)
+(*                 [h, s, v] with v the `status` field written.  Status    *)
+(*                 files are written and never read by this code, so their *)
+(*                 CONTENT is an output, not state: the generator          *)
+(*                 (gen/ExtHandlerGen.tla) accumulates it from wr for the  *)
+(*                 comparison with the real directory.                     *)
+(*     hb[h]       the heartbeat file has been written (by the first       *)
+(*                 iteration of a service run; heartbeat_thread writes it  *)
+(*                 at start and every 5 minutes)                           *)
 (*   and, shared by all handlers (parent directory / whole machine)        *)
 (*     tag         update.tag                                              *)
 (*     svc         the long-running ProxyAgentExt process (found by NAME,  *)
@@ -123,7 +131,7 @@ Cmds == {"install", "enable", "disable", "update", "uninstall", "reset"}
 
 VARIABLES
   \* handler environment
-  curSeq, stf, stray, hb, tag,
+  curSeq, stf, stray, wr, hb, tag,
   \* the machine (Setup contract) and the agent's aggregate status file
   installed, backup, agentUp, aggVer,
   \* the handler command in progress: Idle or [c, h, seq, pc, same, pretag, called]
@@ -142,22 +150,24 @@ VARIABLES
   call       \* the setup command the loop's last decision ran: "none" | "restore" | "purge"
 
 hvars == <<st, fc, sc, gF, gS, lastObs>>
-envvars == <<curSeq, stf, stray, hb, tag>>
+envvars == <<curSeq, stf, stray, hb, tag>>   \* wr is listed separately: every action sets it
 sysvars == <<installed, backup, agentUp, aggVer>>
 loopvars == <<svc, lpc, cache, decided>>
 ghosts == <<pending, prev, credit, call>>
-vars == <<envvars, sysvars, hp, upd, loopvars, hvars, ghosts>>
+vars == <<envvars, wr, sysvars, hp, upd, loopvars, hvars, ghosts>>
 
 H == INSTANCE Health WITH last <- lastObs
 
 Idle == [c |-> "idle"]
+NoWrite == [v |-> None]
 Min(a, b) == IF a < b THEN a ELSE b
 
 -----------------------------------------------------------------------------
 Init ==
   /\ curSeq = [h \in Handlers |-> Absent]
-  /\ stf = [h \in Handlers |-> [s \in Seqs |-> None]]
-  /\ stray = [h \in Handlers |-> None]
+  /\ stf = [h \in Handlers |-> [s \in Seqs |-> FALSE]]
+  /\ stray = [h \in Handlers |-> FALSE]
+  /\ wr = NoWrite
   /\ hb = [h \in Handlers |-> FALSE]
   /\ tag = FALSE
   /\ installed \in {None, "x0"} /\ backup = None
@@ -170,8 +180,10 @@ Init ==
 
 \* report_status(folder, s, status): get_file_path(folder, "", "status") is `<folder>.status`
 WriteStatus(h, s, v) ==
-  IF s = Empty THEN stray' = [stray EXCEPT ![h] = v] /\ UNCHANGED stf
-               ELSE stf' = [stf EXCEPT ![h][s] = v] /\ UNCHANGED stray
+  /\ wr' = [h |-> h, s |-> s, v |-> v]
+  /\ IF s = Empty THEN stray' = [stray EXCEPT ![h] = TRUE] /\ UNCHANGED stf
+                  ELSE stf' = [stf EXCEPT ![h][s] = TRUE] /\ UNCHANGED stray
+Quiet == wr' = NoWrite
 
 \* the locals of monitor_thread as a new process has them (StatusState::new()); also what is left when it dies
 LoopLocals(owner) ==
@@ -184,6 +196,7 @@ LoopLocals(owner) ==
 \* Handler commands (handler_main.rs).  The guest agent starts one process per command and waits for it.
 
 Begin(h, c, s) ==
+  /\ Quiet
   /\ hp = Idle
   /\ hp' = [c |-> c, h |-> h, seq |-> s, pc |-> "os", same |-> FALSE, pretag |-> tag, called |-> FALSE]
   /\ UNCHANGED <<envvars, sysvars, upd, loopvars, hvars, ghosts>>
@@ -202,17 +215,19 @@ FirstPc(c) == CASE c = "enable" -> "seq" [] c = "disable" -> "kill" [] c = "upda
 OsCheck ==
   /\ hp # Idle /\ hp.pc = "os"
   /\ IF OsSupported
-     THEN hp' = [hp EXCEPT !.pc = FirstPc(hp.c)] /\ UNCHANGED <<stf, stray, upd>>
+     THEN hp' = [hp EXCEPT !.pc = FirstPc(hp.c)] /\ Quiet /\ UNCHANGED <<stf, stray, upd>>
      ELSE WriteStatus(hp.h, hp.seq, "error") /\ Finish("exit6")
   /\ UNCHANGED <<curSeq, hb, tag, sysvars, loopvars, hvars, ghosts>>
 
 InstallNoop ==     \* install_handler does nothing on Linux
+  /\ Quiet
   /\ hp # Idle /\ hp.pc = "noop"
   /\ Finish("ok")
   /\ UNCHANGED <<envvars, sysvars, loopvars, hvars, ghosts>>
 
 \* enable_handler, step 1: common::update_current_seq_no (read, compare as strings, write)
 EnSeq ==
+  /\ Quiet
   /\ hp # Idle /\ hp.pc = "seq"
   /\ LET same == curSeq[hp.h] = hp.seq IN
        /\ curSeq' = IF same THEN curSeq ELSE [curSeq EXCEPT ![hp.h] = hp.seq]
@@ -229,6 +244,7 @@ EnStatus ==
 
 \* step 3: a ProxyAgentExt with a one-element command line is looked for by name; started if there is none
 EnStart ==
+  /\ Quiet
   /\ hp # Idle /\ hp.pc = "start"
   /\ IF svc = None THEN LoopLocals(hp.h) ELSE UNCHANGED <<loopvars, hvars, credit, call>>
   /\ hp' = [hp EXCEPT !.pc = "untag"]
@@ -244,6 +260,7 @@ EnStartFail ==
 
 \* step 4: update.tag is removed
 EnUntag ==
+  /\ Quiet
   /\ hp # Idle /\ hp.pc = "untag"
   /\ tag' = FALSE
   /\ Finish("ok")
@@ -251,6 +268,7 @@ EnUntag ==
 
 \* disable_handler: SIGKILL to the service, wherever its loop stands
 DisKill ==
+  /\ Quiet
   /\ hp # Idle /\ hp.pc = "kill"
   /\ IF svc # None THEN LoopLocals(None) ELSE UNCHANGED <<loopvars, hvars, credit, call>>
   /\ Finish("ok")
@@ -258,6 +276,7 @@ DisKill ==
 
 \* update_handler: write update.tag in the parent directory
 UpdTag ==
+  /\ Quiet
   /\ hp # Idle /\ hp.pc = "tag"
   /\ tag' = TRUE
   /\ Finish("ok")
@@ -265,29 +284,34 @@ UpdTag ==
 
 \* uninstall_handler: the setup tool's `uninstall` unless an update is in progress
 UnCheck ==
+  /\ Quiet
   /\ hp # Idle /\ hp.pc = "chk"
   /\ IF tag THEN Finish("ok") ELSE hp' = [hp EXCEPT !.pc = "setup"] /\ UNCHANGED upd
   /\ UNCHANGED <<envvars, sysvars, loopvars, hvars, ghosts>>
 
 UnSetup ==         \* proxy_agent_setup uninstall (service mode): unit removed, files stay
+  /\ Quiet
   /\ hp # Idle /\ hp.pc = "setup"
   /\ agentUp' = FALSE
   /\ hp' = [hp EXCEPT !.pc = "done", !.called = TRUE]
   /\ UNCHANGED <<envvars, installed, backup, aggVer, upd, loopvars, hvars, ghosts>>
 
 UnDone ==
+  /\ Quiet
   /\ hp # Idle /\ hp.pc = "done"
   /\ Finish("ok")
   /\ UNCHANGED <<envvars, sysvars, loopvars, hvars, ghosts>>
 
 \* reset_handler: remove update.tag, then current_seq_no.txt (the service is not touched)
 RsTag ==
+  /\ Quiet
   /\ hp # Idle /\ hp.pc = "rmtag"
   /\ tag' = FALSE
   /\ hp' = [hp EXCEPT !.pc = "rmseq"]
   /\ UNCHANGED <<curSeq, stf, stray, hb, sysvars, upd, loopvars, hvars, ghosts>>
 
 RsSeq ==
+  /\ Quiet
   /\ hp # Idle /\ hp.pc = "rmseq"
   /\ curSeq' = [curSeq EXCEPT ![hp.h] = Absent]
   /\ credit' = IF curSeq[hp.h] # Absent /\ svc = hp.h THEN Min(credit + 1, 2) ELSE credit
@@ -306,20 +330,24 @@ SeqText(h) == IF curSeq[h] = Absent THEN Empty ELSE curSeq[h]
 
 \* top of the loop: get_current_seq_no, compare with the cache
 LRead ==
+  /\ Quiet
   /\ svc # None /\ lpc = "top"
   /\ IF cache # SeqText(svc)
      THEN cache' = SeqText(svc) /\ lpc' = "ver"
      ELSE cache' = cache /\ lpc' = "obs"
-  /\ UNCHANGED <<envvars, sysvars, hp, upd, svc, decided, hvars, ghosts>>
+  /\ hb' = [hb EXCEPT ![svc] = TRUE]       \* heartbeat_thread has written by now
+  /\ UNCHANGED <<curSeq, stf, stray, tag, sysvars, hp, upd, svc, decided, hvars, ghosts>>
 
 \* `<installed exe> --version` vs the packaged one (a missing executable reads as "")
 LVersion ==
+  /\ Quiet
   /\ svc # None /\ lpc = "ver"
   /\ lpc' = IF installed # PkgOf(svc) THEN "bak" ELSE "obs"
   /\ UNCHANGED <<envvars, sysvars, hp, upd, svc, cache, decided, hvars, ghosts>>
 
 \* proxy_agent_setup backup (Setup: BackupExact; nothing installed leaves an earlier backup in place)
 LBackup ==
+  /\ Quiet
   /\ svc # None /\ lpc = "bak"
   /\ backup' = IF installed # None THEN installed ELSE backup
   /\ prev' = installed
@@ -329,6 +357,7 @@ LBackup ==
 \* proxy_agent_setup install (Setup: InstallExact, StartedAfter), then report_proxy_agent_service_status:
 \* update_state(false) -- an installation counts as a failed observation
 LInstall ==
+  /\ Quiet
   /\ svc # None /\ lpc = "ins"
   /\ installed' = PkgOf(svc) /\ agentUp' = TRUE
   /\ H!Observe(FALSE)
@@ -346,6 +375,7 @@ LInstStatus ==
 
 \* report_proxy_agent_aggregate_status: status.json readable and naming the packaged version = success
 LObserve ==
+  /\ Quiet
   /\ svc # None /\ lpc = "obs"
   /\ H!Observe(aggVer = PkgOf(svc))
   /\ lpc' = "dec"
@@ -353,6 +383,7 @@ LObserve ==
 
 \* restore_purge_proxyagent, unless restored_in_error is already set
 LDecide ==
+  /\ Quiet
   /\ svc # None /\ lpc = "dec"
   /\ lpc' = "rep"
   /\ IF ~decided /\ st = "error"
@@ -376,36 +407,33 @@ LReport ==
   /\ lpc' = "top"
   /\ UNCHANGED <<curSeq, hb, tag, sysvars, hp, upd, svc, cache, decided, hvars, ghosts>>
 
-\* heartbeat_thread
-LHeartbeat ==
-  /\ svc # None /\ ~hb[svc]
-  /\ hb' = [hb EXCEPT ![svc] = TRUE]
-  /\ UNCHANGED <<curSeq, stf, stray, tag, sysvars, hp, upd, loopvars, hvars, ghosts>>
-
 -----------------------------------------------------------------------------
 \* The rest of the machine.
 
 \* a healthy agent that is registered and started writes its own version into status.json
 AgentReport ==
+  /\ Quiet
   /\ agentUp /\ installed \in Good /\ aggVer # installed
   /\ aggVer' = installed
   /\ UNCHANGED <<envvars, installed, backup, agentUp, hp, upd, loopvars, hvars, ghosts>>
 
 \* the image's / distribution's own package replaces the agent
 ExternalInstall ==
+  /\ Quiet
   /\ ExternalChange /\ installed # "x0"
   /\ installed' = "x0" /\ agentUp' = TRUE
   /\ UNCHANGED <<envvars, backup, aggVer, hp, upd, loopvars, hvars, ghosts>>
 
 \* the service dies (reboot, OOM, ...); only a later `enable` starts it again
 Crash ==
+  /\ Quiet
   /\ svc # None
   /\ LoopLocals(None)
   /\ UNCHANGED <<envvars, sysvars, hp, upd, pending, prev>>
 
 HandlerStep == \/ OsCheck \/ InstallNoop \/ EnSeq \/ EnStatus \/ EnStart \/ EnStartFail \/ EnUntag
                \/ DisKill \/ UpdTag \/ UnCheck \/ UnSetup \/ UnDone \/ RsTag \/ RsSeq
-LoopStep == LRead \/ LVersion \/ LBackup \/ LInstall \/ LInstStatus \/ LObserve \/ LDecide \/ LReport \/ LHeartbeat
+LoopStep == LRead \/ LVersion \/ LBackup \/ LInstall \/ LInstStatus \/ LObserve \/ LDecide \/ LReport
 EnvStep == AgentReport \/ ExternalInstall \/ Crash
 
 Next == BeginCmd \/ HandlerStep \/ LoopStep \/ EnvStep
@@ -416,7 +444,8 @@ Spec == Init /\ [][Next]_vars
 
 TypeOK ==
   /\ curSeq \in [Handlers -> Seqs \cup {Absent}]
-  /\ stf \in [Handlers -> [Seqs -> StatusVals]] /\ stray \in [Handlers -> StatusVals]
+  /\ stf \in [Handlers -> [Seqs -> BOOLEAN]] /\ stray \in [Handlers -> BOOLEAN]
+  /\ wr.v \in StatusVals
   /\ hb \in [Handlers -> BOOLEAN] /\ tag \in BOOLEAN /\ upd \in BOOLEAN
   /\ installed \in Versions \cup {None} /\ backup \in Versions \cup {None} /\ aggVer \in Versions \cup {None}
   /\ prev \in Versions \cup {None} /\ agentUp \in BOOLEAN
@@ -435,17 +464,17 @@ StatusWriter(h, s) ==
   \/ Busy /\ hp.h = h /\ hp.seq = s /\ hp.pc = "os"
   \/ svc = h /\ cache = s /\ lpc \in {"insst", "rep"}
 StatusForCurrentSeq ==
-  [][\A h \in Handlers, s \in Seqs : stf'[h][s] # stf[h][s] => StatusWriter(h, s)]_vars
+  [][(wr' # NoWrite /\ wr'.s # Empty) => StatusWriter(wr'.h, wr'.s)]_vars
 \* a successful enable leaves its number current and reported
 EnableOk == Busy /\ hp.c = "enable" /\ hp.pc = "untag" /\ hp' = Idle
-EnableReportsItsSeq == [][EnableOk => curSeq'[hp.h] = hp.seq /\ stf'[hp.h][hp.seq] # None]_vars
+EnableReportsItsSeq == [][EnableOk => curSeq'[hp.h] = hp.seq /\ stf'[hp.h][hp.seq]]_vars
 
 \* --- EnableIdempotent: the steps of an enable that found its own number already current do not write
 \* (the exit-7 report of a service that cannot be started is the one exception: nothing is running then)
 SameNow == Busy /\ hp.c = "enable" /\ (IF hp.pc = "seq" THEN curSeq[hp.h] = hp.seq ELSE hp.same)
 EnableIdempotent ==
   [][(IsHandlerStep /\ SameNow /\ svc # None) =>
-        /\ curSeq' = curSeq /\ stf' = stf /\ stray' = stray
+        /\ curSeq' = curSeq /\ wr' = NoWrite
         /\ UNCHANGED <<loopvars, hvars>>]_vars
 \* ... and an enable never restarts a running service, whatever the number
 EnableKeepsRunningService ==
@@ -463,8 +492,8 @@ AgentUnregisteredOnlyByUninstall ==
 \* --- UnsupportedOsOnlyReports
 UnsupportedOsOnlyReports ==
   ~OsSupported => /\ svc = None /\ ~tag /\ backup = None
-                  /\ \A h \in Handlers : /\ curSeq[h] = Absent /\ stray[h] = None
-                                         /\ \A s \in Seqs : stf[h][s] \in {None, "error"}
+                  /\ wr.v \in {None, "error"}
+                  /\ \A h \in Handlers : curSeq[h] = Absent /\ ~stray[h]
 
 \* --- RollbackOnError (composition with Health: gF / lastObs are Health's true run lengths)
 DecisionStep == svc # None /\ lpc = "dec" /\ lpc' = "rep"
@@ -489,8 +518,10 @@ InstallOnlyOnMismatch == [][LoopInstallStep => installed # PkgOf(svc) /\ install
 
 \* --- heartbeat: only a service run writes the heartbeat file
 HeartbeatOnlyByService == [][\A h \in Handlers : (hb'[h] /\ ~hb[h]) => svc = h]_vars
+\* what the service reports is Health's report at that moment
+ServiceReportsHealth == [][(wr' # NoWrite /\ ~IsHandlerStep) => wr'.v = st /\ wr'.h = svc /\ wr'.s = cache]_vars
 
 \* --- findings (do NOT hold for the code as built; checked by their own configurations)
-StatusOnlyInFolder == \A h \in Handlers : stray[h] = None
+StatusOnlyInFolder == \A h \in Handlers : ~stray[h]
 RollbackCoversEveryInstall == (svc # None /\ lpc = "top" /\ pending) => st = "transitioning"
 =============================================================================
